@@ -18,10 +18,14 @@ What is trusted (engine quantities that other properties verify), and what is re
 
 Conventions that the documentation leaves implicit and that are fixed here (listed in the check's assumptions):
   * accelerations reported by accelerometer / framelinacc are 'proper' accelerations a - g ("including gravity");
-  * force/torque: the reading is the wrench exerted by the parent on the child ... expressed in the site frame with
-    the torque taken about the site origin (sign fixed by the static hanging-body case, see c28.py);
+  * force/torque: the reading is the wrench exerted ON the child body BY its parent (a static child of mass m under
+    gravity -g z reads +m g z), expressed in the site frame with the torque taken about the site origin;
   * joint-space forces (actuators, passive, limits, tendons) are not "external Cartesian forces": only gravity,
-    xfrc_applied, contacts are (connect/weld are handled by cross-check only).
+    xfrc_applied, contacts are (active connect/weld: isolation only);
+  * touch: the 're-projection' ray starts at the contact point and runs along the contact normal out of the sensor
+    body (towards the other body); contacts between two geoms of the sensor body are bracketed;
+  * tendonactuatorfrc sums scalar actuator forces (gear not applied);
+  * quaternion outputs are compared as rotations.
 """
 import math
 
